@@ -23,6 +23,16 @@ type simCtx struct {
 	hasDL    bool
 	child    *simCtx // first child
 	sibling  *simCtx // next child of the same parent
+	cause    error
+	after    *afterReg // functions registered with context.AfterFunc
+}
+
+type afterReg struct {
+	f       func()
+	stopped bool
+	ran     bool
+	next    *afterReg
+	sync    byte
 }
 
 const maxCtx = 1024
@@ -71,12 +81,64 @@ func (c *simCtx) link(p *simCtx) {
 func (c *simCtx) getErr() error { return c.err }
 
 //go:norace
-func (c *simCtx) setErr(e error) bool {
+func (c *simCtx) setErr(e, cause error) bool {
 	if c.err != nil {
 		return false
 	}
 	c.err = e
+	if cause == nil {
+		cause = e
+	}
+	c.cause = cause
 	return true
+}
+
+//go:norace
+func (c *simCtx) getCause() error { return c.cause }
+
+//go:norace
+func (c *simCtx) addAfter(r *afterReg) {
+	r.next = c.after
+	c.after = r
+}
+
+//go:norace
+func (c *simCtx) takeAfter() *afterReg {
+	r := c.after
+	c.after = nil
+	return r
+}
+
+//go:norace
+func (r *afterReg) claim() bool {
+	if r.stopped || r.ran {
+		return false
+	}
+	r.ran = true
+	return true
+}
+
+//go:norace
+func (r *afterReg) stop() bool {
+	if r.stopped || r.ran {
+		return false
+	}
+	r.stopped = true
+	return true
+}
+
+//go:norace
+func (r *afterReg) nextReg() *afterReg { return r.next }
+
+func runAfter(r *afterReg) {
+	if !r.claim() {
+		return
+	}
+	f := r.f
+	Go(func() {
+		RaceAcquire(unsafe.Pointer(&r.sync))
+		f()
+	})
 }
 
 //go:norace
@@ -106,17 +168,23 @@ func (c *simCtx) Err() error {
 
 func (c *simCtx) Value(k any) any { return c.parent.Value(k) }
 
-func (c *simCtx) cancel(e error) {
+func (c *simCtx) cancel(e error) { c.cancelCause(e, nil) }
+
+func (c *simCtx) cancelCause(e, cause error) {
 	RaceAcquire(unsafe.Pointer(c))
-	first := c.setErr(e)
+	first := c.setErr(e, cause)
 	RaceRelease(unsafe.Pointer(c))
 	if !first {
 		return
 	}
+	cause = c.getCause()
 	cancelTimer(*(*unsafe.Pointer)(unsafe.Pointer(&c.done)))
 	Close(c.done)
 	for ch := c.firstChild(); ch != nil; ch = ch.nextSibling() {
-		ch.cancel(e)
+		ch.cancelCause(e, cause)
+	}
+	for r := c.takeAfter(); r != nil; r = r.nextReg() {
+		runAfter(r)
 	}
 }
 
@@ -131,7 +199,7 @@ func newSimCtx(parent context.Context) *simCtx {
 			pe := p.getErr()
 			RaceRelease(unsafe.Pointer(p))
 			if pe != nil {
-				c.cancel(pe)
+				c.cancelCause(pe, p.getCause())
 			} else {
 				c.link(p)
 			}
@@ -190,4 +258,87 @@ func CtxWithTimeout(parent context.Context, d time.Duration) (context.Context, c
 		return context.WithTimeout(parent, d)
 	}
 	return CtxWithDeadline(parent, time.Unix(0, nowNanos()+int64(d)))
+}
+
+// simCtxOf finds the simulator-owned context behind ctx (ctx itself, or the one
+// whose Done channel ctx inherits through WithValue and the like).
+func simCtxOf(ctx context.Context) *simCtx {
+	if c, ok := ctx.(*simCtx); ok {
+		return c
+	}
+	if d := ctx.Done(); d != nil {
+		return ctxByDone(*(*unsafe.Pointer)(unsafe.Pointer(&d)))
+	}
+	return nil
+}
+
+// CtxWithCancelCause replaces context.WithCancelCause.
+func CtxWithCancelCause(parent context.Context) (context.Context, context.CancelCauseFunc) {
+	if !Active() {
+		return context.WithCancelCause(parent)
+	}
+	if parent == nil {
+		panic("cannot create context from nil parent")
+	}
+	Y(0)
+	c := newSimCtx(parent)
+	return c, func(cause error) { Y(0); c.cancelCause(context.Canceled, cause) }
+}
+
+// CtxWithDeadlineCause and CtxWithTimeoutCause replace their context namesakes.
+func CtxWithDeadlineCause(parent context.Context, d time.Time, cause error) (context.Context, context.CancelFunc) {
+	if !Active() {
+		return context.WithDeadlineCause(parent, d, cause)
+	}
+	ctx, cancel := CtxWithDeadline(parent, d)
+	if c, ok := ctx.(*simCtx); ok && c.hasDL {
+		// re-key the deadline so that it carries the cause
+		key := *(*unsafe.Pointer)(unsafe.Pointer(&c.done))
+		if cancelTimer(key) {
+			if !addTimer(d.UnixNano(), key, func() { c.cancelCause(context.DeadlineExceeded, cause) }) {
+				abort("harness-limit", "too many pending timers")
+			}
+		}
+	}
+	return ctx, cancel
+}
+
+func CtxWithTimeoutCause(parent context.Context, d time.Duration, cause error) (context.Context, context.CancelFunc) {
+	if !Active() {
+		return context.WithTimeoutCause(parent, d, cause)
+	}
+	return CtxWithDeadlineCause(parent, time.Unix(0, nowNanos()+int64(d)), cause)
+}
+
+// CtxCause replaces context.Cause.
+func CtxCause(ctx context.Context) error {
+	if c := simCtxOf(ctx); c != nil {
+		Y(0)
+		RaceAcquire(unsafe.Pointer(c))
+		e := c.getCause()
+		RaceRelease(unsafe.Pointer(c))
+		return e
+	}
+	return context.Cause(ctx)
+}
+
+// CtxAfterFunc replaces context.AfterFunc: f runs as a simulated task of its own
+// once the context is done.
+func CtxAfterFunc(ctx context.Context, f func()) (stop func() bool) {
+	c := simCtxOf(ctx)
+	if c == nil || !Active() {
+		return context.AfterFunc(ctx, f)
+	}
+	Y(0)
+	r := &afterReg{f: f}
+	RaceRelease(unsafe.Pointer(&r.sync))
+	RaceAcquire(unsafe.Pointer(c))
+	done := c.getErr() != nil
+	RaceRelease(unsafe.Pointer(c))
+	if done {
+		runAfter(r)
+	} else {
+		c.addAfter(r)
+	}
+	return func() bool { Y(0); return r.stop() }
 }
